@@ -21,6 +21,15 @@ if REPO not in sys.path:
     sys.path.insert(0, REPO)
 
 
+# the documented priority of simultaneous events (simulator.py, EventType): events that
+# free resources first.  Written down here by name so that the monitors do not follow a
+# change of the enum values.
+EVENT_ORDER = ["SIMULATOR_START", "TASK_CANCEL", "EVICT_PROFILE", "TASK_FINISHED", "TASK_GRAPH_RELEASE",
+               "TASK_RELEASE", "UPDATE_WORKLOAD", "TASK_PREEMPT", "TASK_MIGRATION", "LOAD_PROFILE",
+               "TASK_PLACEMENT", "SCHEDULER_START", "SCHEDULER_FINISHED", "SIMULATOR_END", "LOG_UTILIZATION"]
+EVENT_RANK = {n: i for i, n in enumerate(EVENT_ORDER)}
+
+
 def seed_int(*parts) -> int:
     """Deterministic 63-bit integer from arbitrary parts (no PYTHONHASHSEED)."""
     h = hashlib.sha256(repr(parts).encode()).digest()
